@@ -7,8 +7,8 @@ From ClapModel Require Import Parse.Cmd Parse.Build Parse.Valid Parse.Matcher Pa
 From ClapModel Require Import Value.PossibleValues.
 From ClapModel Require Import Derive.DeriveModel Derive.DeriveProofs.
 From ClapModel Require Import ParseProofs.Actions ParseProofs.Unparse ParseProofs.UnparseTop ParseProofs.UnparseTree.
-From ClapModel Require Import Derive.DeriveCmd Derive.DeriveArgs Derive.DeriveParse Derive.DeriveParseEx.
-From Coq Require Import List.
+From ClapModel Require Import Derive.DeriveCmd Derive.DeriveArgs Derive.DeriveParse Derive.DeriveUpdate Derive.DeriveParseEx.
+From Coq Require Import ZArith List.
 Import ListNotations.
 Open Scope N_scope.
 
@@ -207,3 +207,51 @@ Proof.
   split; [destruct ParseEx.ex_parses as [m [H _]]; exists m; exact H|exact ParseEx.ex_roundtrip].
 Qed.
 Print Assumptions C15_roundtrip_parse_nonvacuous.
+
+(** The same with the class stated on the derive input alone: [printable] follows from the attribute combinations of
+    [field_ok] (part of [ok_nodes]) when an explicit [num_args] agrees with the action ([takes_ok]). *)
+Theorem C15_roundtrip_parse_sound_class : forall d bin vs argv m,
+  opt_struct d -> Forall takes_ok (fields_of (d_nodes d)) -> ok_nodes (d_nodes d) vs ->
+  valid (with_bin (derive_cmd d) bin) = true ->
+  print d vs = Some argv ->
+  parse_top (derive_cmd d) (bin :: argv) = OOk m ->
+  extract d m = XOk vs.
+Proof. exact roundtrip_parse_sound_ok. Qed.
+Print Assumptions C15_roundtrip_parse_sound_class.
+
+(** WHEN EXTRACTION CAN FAIL AFTER A SUCCESSFUL COMMAND PARSE: exactly when the command does not declare the
+    requiredness the extraction relies on.  Witness: a plain field with [required = false] -- the command accepts the
+    empty line, extraction answers MissingRequiredArgument (model = implementation: corpus type BPlainNotRequired). *)
+Theorem C15_extract_after_parse_needs_required_refuted :
+  exists d argv m, parse_top (derive_cmd d) argv = OOk m /\ extract d m = XErr EMissingRequiredArgument
+                   /\ derived_parse d argv = PError EMissingRequiredArgument.
+Proof. exists NotRequiredEx.d, [b_prog]. exact NotRequiredEx.ex_extract_fails. Qed.
+Print Assumptions C15_extract_after_parse_needs_required_refuted.
+
+(** UPDATE CHANGES ONLY THE FIELDS NAMED ON THE COMMAND LINE, "named" read off the line itself: for every struct of
+    argument fields (options and positionals), every well-formed invocation [its] of the update command (C02's class:
+    long/short spellings, clusters, positional runs) and every field whose argument carries no default (no
+    [default_value], not a flag or counter): if no occurrence of the invocation belongs to the field's argument
+    ([count_occ] over C02's [occs]), a successful [try_update_from] on the rendered line leaves the field as it was.
+    (For default-bearing fields the statement is false: [C15_update_frame_argv_refuted].) *)
+Theorem C15_update_unnamed_untouched : forall d bin its vs vs' f,
+  fields_only (d_nodes d) = true -> In f (fields_of (d_nodes d)) -> bf_default f = [] ->
+  valid (with_bin (derive_cmd_for_update d) bin) = true ->
+  wf_inv (builtu d bin) (ILeaf its) = true ->
+  Actions.count_occ (f_id f) (occs (builtu d bin) 1 its) = 0%nat ->
+  derived_update d vs (bin :: render its) = PValue vs' ->
+  field_at (d_nodes d) vs' (f_id f) = field_at (d_nodes d) vs (f_id f).
+Proof. exact update_unnamed_untouched. Qed.
+Print Assumptions C15_update_unnamed_untouched.
+
+(** Non-vacuity: updating [{vv: false, oo: Some(7), x: ["a"], c: 3}] from [--vv -x=z] keeps [oo = Some(7)]. *)
+Theorem C15_update_unnamed_nonvacuous :
+  fields_only (d_nodes ParseEx.d) = true /\ In ParseEx.fo (fields_of (d_nodes ParseEx.d)) /\ bf_default ParseEx.fo = []
+  /\ valid (with_bin (derive_cmd_for_update ParseEx.d) b_prog) = true
+  /\ wf_inv (builtu ParseEx.d b_prog) (ILeaf UpdateEx.its) = true
+  /\ Actions.count_occ (f_id ParseEx.fo) (occs (builtu ParseEx.d b_prog) 1 UpdateEx.its) = 0%nat
+  /\ render UpdateEx.its = [[45;45;118;118]; [45;120;61;122]]
+  /\ derived_update ParseEx.d UpdateEx.v0 (b_prog :: render UpdateEx.its) = PValue UpdateEx.v1
+  /\ field_at (d_nodes ParseEx.d) UpdateEx.v1 (f_id ParseEx.fo) = Some (DOpt (Some (SvInt 7%Z))).
+Proof. exact UpdateEx.ex_update. Qed.
+Print Assumptions C15_update_unnamed_nonvacuous.
